@@ -683,9 +683,14 @@ where
         }
 
         let volume_idx = data.get_volume_by_id(dir_info.raw_volume)?;
-        match &data.open_volumes[volume_idx].volume_type {
+        match &mut data.open_volumes[volume_idx].volume_type {
             VolumeType::Fat(fat) => {
-                fat.delete_directory_entry(&mut data.block_cache, dir_info, &sfn)?
+                // Mark the entry as deleted on disk first, so that a live
+                // entry never points at clusters that were already freed
+                fat.delete_directory_entry(&mut data.block_cache, dir_info, &sfn)?;
+                // Now give the file's clusters back
+                fat.free_cluster_chain(&mut data.block_cache, dir_entry.cluster)?;
+                fat.update_info_sector(&mut data.block_cache)?;
             }
         }
 
